@@ -8,6 +8,7 @@ CONSTANTS
   LyingSources = {}
   EndgameLimit = 2
   MaxStops = 1
+  MaxFaults = 1
 INVARIANT Inv
 PROPERTY Live
 CHECK_DEADLOCK FALSE
